@@ -332,6 +332,25 @@ def run_property(pid, tier, seed, t0, pin=False):
             elif not rejected:
                 undecided.append(f"vacuity guard tripped for {key}: {detail}")
 
+    # ---- thorough tier: two further solver seeds per unit; instability is reported, never an alarm
+    seed_runs = []
+    if tier == "thorough" and not undecided:
+        extra_seeds = [seed + 1, seed + 2]
+        jobs = [(um["unit"], um["model"], sd) for um in units for sd in extra_seeds]
+        with ThreadPoolExecutor(max_workers=6) as ex:
+            more = list(ex.map(lambda j: (j, run_unit(j[0], j[1], j[2])), jobs))
+        for (un, mo, sd), u2 in more:
+            bad = []
+            if u2.error:
+                bad = ["run error: " + u2.error[:200]]
+            else:
+                bad = sorted({f["name"] for f in u2.fails if f["owner"] in ("fn", "lemma")})
+            seed_runs.append({"unit": f"{un}@{mo}", "seed": sd, "failing": bad})
+            base_fail = {f["name"] for u in runs if u.unit == un and u.model == mo for f in u.fails}
+            for b in bad:
+                if b not in base_fail:
+                    unstable.append(f"{un}@{mo}:{b} fails only under seed {sd}")
+
     # ---- assumption scan against the committed allow-list
     allow = {}
     if os.path.exists(ALLOW_FILE):
@@ -478,6 +497,7 @@ def run_property(pid, tier, seed, t0, pin=False):
         "solver_time_ms": smt_ms,
         "known_findings_hit": [k.get("id") for (k, _, _) in known_hits],
         "unstable": unstable,
+        "seed_runs": seed_runs,
         "undecided": undecided,
         "failures_carrying_other_properties": sorted(set(other_fail)),
         "not_decided_by_this_check": p.get("not_decided", []),
